@@ -196,20 +196,95 @@ func dumpEntities(table string, m map[string][]byte, rev map[byte][]byte) {
 	}
 	sort.Ints(chs)
 	for _, c := range chs {
+		noteRev(table+":text", c)
 		emit(fmt.Sprintf("reventity|%s|%d", table, c), obj{"kind": "reventity", "table": table, "ch": c,
 			"r": replRecord(rev[byte(c)])})
 	}
 }
 
+// revChars collects the characters that have an entry in some reverse entity map of a language (for the probes).
+var revChars = map[string]map[int]bool{}
+
+// table is "<lang>:text" / "<lang>:attr": the context the map is used in (TextRev... / AttrRev...; other names: both)
+func noteRev(table string, ch int) {
+	if revChars[table] == nil {
+		revChars[table] = map[int]bool{}
+	}
+	revChars[table][ch] = true
+}
+
+// byteKey evaluates a map key of type byte written as a char literal ('<', '\t') or an integer literal (0, 0x3c).
+func byteKey(e ast.Expr) (int, bool) {
+	bl, ok := e.(*ast.BasicLit)
+	if !ok {
+		return 0, false
+	}
+	switch bl.Kind {
+	case token.CHAR:
+		ch, _, _, err := strconv.UnquoteChar(bl.Value[1:len(bl.Value)-1], '\'')
+		if err != nil || ch > 255 {
+			return 0, false
+		}
+		return int(ch), true
+	case token.INT:
+		v, err := strconv.ParseUint(bl.Value, 0, 8)
+		if err != nil {
+			return 0, false
+		}
+		return int(v), true
+	}
+	return 0, false
+}
+
+// bytesValue evaluates a []byte value written as []byte("...") or []byte{'a', 0x62, ...}.
+func bytesValue(e ast.Expr) ([]byte, bool) {
+	switch v := e.(type) {
+	case *ast.CallExpr:
+		if len(v.Args) != 1 {
+			return nil, false
+		}
+		bl, ok := v.Args[0].(*ast.BasicLit)
+		if !ok || bl.Kind != token.STRING {
+			return nil, false
+		}
+		s, err := strconv.Unquote(bl.Value)
+		if err != nil {
+			return nil, false
+		}
+		return []byte(s), true
+	case *ast.CompositeLit:
+		out := []byte{}
+		for _, el := range v.Elts {
+			c, ok := byteKey(el)
+			if !ok {
+				return nil, false
+			}
+			out = append(out, byte(c))
+		}
+		return out, true
+	}
+	return nil, false
+}
+
 // dumpExtraRevMaps audits every further package-level `var X = map[byte][]byte{...}` of <repo>/<pkg>/table.go
 // (reverse entity maps added besides TextRevEntitiesMap, e.g. xml.AttrRevEntitiesMap).  Such a variable
 // may not exist in every version of the tree, so it cannot be referenced from Go code here: the entries
-// are read from the source of the tree under test (go/parser), char and string literals evaluated by strconv.
+// are read from the source of the tree under test (go/parser), char / integer / string literals evaluated by
+// strconv.  An entry whose key or value is written in a form this reader cannot evaluate is not skipped
+// silently: it is emitted as a "tablenote" line (reported by the check, counted in the evidence).
 func dumpExtraRevMaps(repo, pkg, table string) int {
 	fset := token.NewFileSet()
 	f, err := parser.ParseFile(fset, filepath.Join(repo, pkg, "table.go"), nil, 0)
 	if err != nil {
 		lib.Fatal("parse %s/table.go: %v", pkg, err)
+	}
+	src, _ := os.ReadFile(filepath.Join(repo, pkg, "table.go"))
+	text := func(n ast.Node) string {
+		a, b := fset.Position(n.Pos()).Offset, fset.Position(n.End()).Offset
+		if 0 <= a && a <= b && b <= len(src) {
+			return string(src[a:b])
+		}
+		return "?"
 	}
 	n := 0
 	for _, d := range f.Decls {
@@ -238,35 +313,67 @@ func dumpExtraRevMaps(repo, pkg, table string) int {
 			} else if e, ok := at.Elt.(*ast.Ident); !ok || e.Name != "byte" {
 				continue
 			}
-			for _, el := range cl.Elts {
+			name := vs.Names[0].Name
+			for idx, el := range cl.Elts {
 				kv, ok := el.(*ast.KeyValueExpr)
 				if !ok {
-					lib.Fatal("%s.%s: unexpected element", pkg, vs.Names[0].Name)
+					emit(fmt.Sprintf("tablenote|%s.%s|%d", table, name, idx), obj{"kind": "tablenote", "table": table, "map": name,
+						"text": text(el), "why": "element is not key: value"})
+					continue
 				}
-				kl, ok1 := kv.Key.(*ast.BasicLit)
-				call, ok2 := kv.Value.(*ast.CallExpr)
-				if !ok1 || !ok2 || kl.Kind != token.CHAR || len(call.Args) != 1 {
-					lib.Fatal("%s.%s: entry is not of the form 'c': []byte(\"...\")", pkg, vs.Names[0].Name)
+				ch, ok1 := byteKey(kv.Key)
+				val, ok2 := bytesValue(kv.Value)
+				if !ok1 || !ok2 {
+					emit(fmt.Sprintf("tablenote|%s.%s|%d", table, name, idx), obj{"kind": "tablenote", "table": table, "map": name,
+						"text": text(el), "why": "key or value is not a literal this reader evaluates"})
+					continue
 				}
-				vl, ok := call.Args[0].(*ast.BasicLit)
-				if !ok || vl.Kind != token.STRING {
-					lib.Fatal("%s.%s: value is not a string literal", pkg, vs.Names[0].Name)
+				if !strings.HasPrefix(name, "Attr") {
+					noteRev(table+":text", ch)
 				}
-				ch, _, _, err := strconv.UnquoteChar(kl.Value[1:len(kl.Value)-1], '\'')
-				if err != nil || ch > 255 {
-					lib.Fatal("%s.%s: key %s: %v", pkg, vs.Names[0].Name, kl.Value, err)
+				if !strings.HasPrefix(name, "Text") {
+					noteRev(table+":attr", ch)
 				}
-				val, err := strconv.Unquote(vl.Value)
-				if err != nil {
-					lib.Fatal("%s.%s: value %s: %v", pkg, vs.Names[0].Name, vl.Value, err)
-				}
-				emit(fmt.Sprintf("reventity|%s.%s|%d", table, vs.Names[0].Name, int(ch)), obj{"kind": "reventity", "table": table,
-					"map": vs.Names[0].Name, "ch": int(ch), "r": replRecord([]byte(val))})
+				emit(fmt.Sprintf("reventity|%s.%s|%d", table, name, ch), obj{"kind": "reventity", "table": table,
+					"map": name, "ch": ch, "r": replRecord(val)})
 				n++
 			}
 		}
 	}
 	return n
+}
+
+// probeXMLRev: every character that has a reverse entry, referenced numerically in text and in an attribute value
+// of an XML document, through the public XML minifier.
+func probeXMLRev() {
+	for _, where := range []string{"text", "attr"} {
+		chs := []int{}
+		for c := range revChars["xml:"+where] {
+			chs = append(chs, c)
+		}
+		sort.Ints(chs)
+		for _, c := range chs {
+			for _, form := range []string{"dec", "hex"} {
+				ref := fmt.Sprintf("&#%d;", c)
+				if form == "hex" {
+					ref = fmt.Sprintf("&#x%X;", c)
+				}
+				in := "<a>1" + ref + "2</a>"
+				if where == "attr" {
+					in = `<a b="1` + ref + `2"/>`
+				}
+				out, errs := mimeMin("text/xml", in)
+				it, ia, iok := projectXML([]byte(in))
+				ot, oa, ook := projectXML(out)
+				if errs != "" {
+					ook = false
+				}
+				emit(fmt.Sprintf("revprobe|xml|%s|%s|%d", where, form, c), obj{"kind": "revprobe", "lang": "xml", "where": where, "ch": c, "form": form,
+					"in": in, "out": string(out), "err": errs, "inb": lib.Bytes(in), "outb": lib.Bytes(out), "inok": iok, "outok": ook,
+					"intext": cps(it), "outtext": cps(ot), "inattr": cps(ia), "outattr": cps(oa)})
+			}
+		}
+	}
 }
 
 func has(l []string, s string) bool {
@@ -942,5 +1049,6 @@ func main() {
 		probeEntities(legacy, "", full, mhtml.Minifier{KeepEndTags: true, KeepDocumentTags: true}, "keeptags")
 	}
 	probeXMLEntities(uniqSorted(u.XmlEntities, sortedKeys(mxml.EntitiesMap)))
+	probeXMLRev()
 	tw.Close()
 }
